@@ -391,7 +391,7 @@ def every_project_is_assembled_with_names_of_its_own(F, res, rule="T9"):
            n >= 1 and not bad, where=F.fn(ag).loc(), how="top-level calls: %d; %s" % (n, "; ".join(bad) if bad else "each with a table built in the same iteration"))
 
 
-def packages_are_not_identified_by_name(F, res, rule="T10"):
+def packages_are_not_identified_by_name(F, res, rule="T10", _ret=False):
     """T10: two packages with one name are two packages. Names are unique within one project's dependency closure only (T9): two
     projects open in one session, or an app and its path dependency with a `build/packages` of their own, both have a `dep1`.
     PackageGraph::add_package therefore answers with a fresh entry on every path; if it ever hands back an existing entry, what it
@@ -400,7 +400,7 @@ def packages_are_not_identified_by_name(F, res, rule="T10"):
     f = F.fns.get("ide::base::PackageGraph::add_package")
     if f is None or not f.blocks:
         res.anchor_missing(rule, "ide::base::PackageGraph::add_package")
-        return
+        return None
     d = FL.Defs(f)
     o = d.origin(0)
     cands = [o] if o.get("k") != "multi" else [{"k": "call", "t": dd[3], "bb": dd[0]} if dd[2] == "call" else d.origin_rv(dd[3]["rv"], 0, dd[0], 0, ()) for dd in o["defs"]]
@@ -419,6 +419,8 @@ def packages_are_not_identified_by_name(F, res, rule="T10"):
                 dd = FL.depends(F, g, dg, t["op"])
                 deps |= {(g.path == f.path, a) for a in dd["args"]}
     decided_by = sorted(a for own, a in deps if own)
+    if _ret:
+        return f, fresh, other, decided_by
     ok = bool(fresh) and (not other or 3 in decided_by)
     res.ob(rule, "add_package/fresh-entry", "PackageGraph::add_package answers with a newly allocated entry on every path (or finds an existing one by its manifest, "
            "never by its name alone)", ok, where=f.loc(),
@@ -489,6 +491,40 @@ def one_packages_directory_per_project(F, res, rule="T12"):
            ("; ".join(bad) or "no Path parameter is handed on unchanged by the recursive calls: every package looks below itself"))
 
 
+def FA_op_place(op):
+    from lib.facts import op_place
+    return op_place(op) if isinstance(op, dict) else None
+
+
+def one_entry_per_manifest(F, res, rule="T13"):
+    """T13: "files opened in any order". The server assembles every root it knows as a project of its own, in the order the roots
+    were met (the order files were opened in), each with a fresh name table (T9), and source_root_package answers with the first
+    entry whose manifest lies in the root (T11). A root that is reached twice - a path dependency opened before the project that
+    uses it, a fetched package re-assembled as a root - therefore gets two entries when add_package allocates on every call, and
+    which of them answers depends on the order of opening: opened first, `core = { path = "../core" }` is assembled without the
+    project's build/packages, its entry has no dependencies and precedes the one made while assembling the project; `import
+    gleam/list` inside it resolves to nothing. The graph must hold one entry per manifest: the allocation in add_package is reached
+    only when a search of the existing entries by their manifest found nothing (and the entry found is the answer otherwise), so that
+    the dependencies every assembly finds for it accumulate in one place."""
+    r = packages_are_not_identified_by_name(F, res, rule=rule, _ret=True)
+    if r is None:
+        return
+    f, fresh, other, decided_by = r
+    unit = [f] + [F.fns[c] for c in F.closures_of(f.path) if c in F.fns]
+    from lib import effects as EF
+    adts = {e.get("adt") for u in unit for b in u.reachable() for st in u.blocks[b]["stmts"] if st["k"] == "assign"
+            for pl in ([st["rv"].get("place")] if isinstance(st["rv"].get("place"), dict) else []) + [FA_op_place(st["rv"].get("op"))]
+            if pl for e in pl["p"] if isinstance(e, dict) and "adt" in e}
+    reads_manifest = any(e["field"] == "gleam_toml" and e["how"] in ("read", "borrow")
+                         for u in unit for a in adts if a and a.endswith("PackageInfo") for e in EF.field_effects(u, a))
+    ok = bool(fresh) and bool(other) and 3 in decided_by and reads_manifest
+    res.ob(rule, "add_package/one-entry-per-manifest", "PackageGraph::add_package allocates an entry only when no entry of the graph has the manifest "
+           "(the `gleam_toml` file) it is given, and answers with the entry it found otherwise: whichever root is assembled first, a package "
+           "root has one entry and the dependencies found for it meet there", ok, where=f.loc(),
+           how="fresh allocations %d, answers with an existing entry %d, parameters that decide %s (3 = gleam_toml), reads PackageInfo.gleam_toml: %s"
+               % (len(fresh), len(other), decided_by, reads_manifest))
+
+
 def run(F, res, tier):
     direct_dependencies_only(F, res)
     lookups_go_through_visible_modules(F, res)
@@ -498,6 +534,7 @@ def run(F, res, tier):
     packages_are_not_identified_by_name(F, res)
     name_clashes_and_duplicate_entries_are_settled_one_way(F, res)
     one_packages_directory_per_project(F, res)
+    one_entry_per_manifest(F, res)
     from rules import c08 as _c08, c15 as _c15, c05 as _c05, c07 as _c07
     _c08.locality_comes_from_the_registered_path(F, res, rule="T4")      # V9 + V10 (longest root first)
     _c15.files_lie_below_their_root(F, res, rule="T4")                  # M10
